@@ -5,6 +5,18 @@ NOTES = ("Technique: machine-checked proof in Lean 4 of theorems about a hand-wr
 NOT_APPLICABLE_REASON = {}
 
 CLAIMS = {
+ "C01": {
+  "text": "Lean theorems prove that the array model (a line-by-line transcription of array.go, array_data_slab.go, array_metadata_slab.go incl. split, merge, lend/borrow, root split and promotion, both routing branches) refines plain List operations: for EVERY legal slab size 256..32768, every history, every position and every element size (values larger than the inline limit are externalised), Get/Set/Insert/Remove/PopIterate return what the list returns, in-range requests never fail (the unreachable no-sibling and too-few-elements branches are proved unreachable), root ID and type are stable. The model is tied to the code by replaying every operation of generated histories and comparing observations, storage effects and full structural dumps.",
+  "design_ref": "DESIGN.md 7/C01, Appendix B",
+  "note": "Trusted: Lean kernel; ArrayInv.lean / C01.lean statements; correspondence harness. Values are opaque payloads with a size (the caller's Value/Storable contract is modelled); nested containers as elements: C10.",
+  "technique": "Lean 4 refinement proof (B+tree model -> List) by induction on tree depth + per-operation model/implementation correspondence",
+ },
+ "C05": {
+  "text": "Lean theorems prove that the array invariant ArrInv (every slab <= 1.5T, every non-root slab >= T/2, every element <= the inline limit, header copies / cumulative counts / sibling links exact, index root has >= 2 children, IDs fresh) holds initially and is preserved by every operation, for EVERY legal T; that a full slab holds >= 2 elements and two maximal elements fit; and that positional access and sequential traversal agree. Constants and derived limits are regenerated from source and compared exhaustively with the compiled package. Maps: invariant defined, model tied by correspondence and VerifyMap; preservation theorems belong to C02.",
+  "design_ref": "DESIGN.md 7/C05, Appendix B",
+  "note": "Trusted: Lean kernel; ArrayInv.lean; extractor (constants cross-checked against the compiled values for all 32513 thresholds).",
+  "technique": "Lean 4 invariant proof parametric in the slab size (omega over regenerated constants) + exhaustive threshold comparison + dump correspondence",
+ },
  "C18": {
   "text": "Proved in Lean: the category of every argument error (index/slice out of bounds, key not found: User; collision limit, undefined identifier, slab not found: Fatal) from the table regenerated from errors.go; an uncategorised error from a caller-supplied component becomes External and categorised ones pass through; a rejected array request leaves array, allocation counter and effect log unchanged, so a history with rejected requests ends in the same state as the history without them. Tie: every rejected request in the array and map streams must show an empty net storage effect and unchanged dumps on the real code; failures injected into comparator / hash-input provider / ledger reads must surface as External and leave no trace.",
   "design_ref": "DESIGN.md 7/C18",
